@@ -146,6 +146,9 @@ def api_rules(ctx, prog):
             ctx.ob("C02.S3", "%s -> %s() [%s]" % (f, op, sname), "the %s() goes to the descriptor of the requested stream with exactly the "
                    "caller's buffer and size" % op, args[0] == fs(A.tok(sname)) and args[1] == fs(("str", "<buffer>")) and args[2] == fs(("sym", "size")),
                    {"fd": show(args[0]), "buffer": show(args[1]), "size": show(args[2])}, nontrivial=True)
+        bad = sorted({(e[0], site_of(e[1], e[2])) for e in res.events if e[0] in ("double-close", "close-raw", "close-foreign", "close-ambiguous")})
+        ctx.ob("C02.S2d", f, "the parent's end is released exactly once - also when close() itself reports an error, after which the "
+               "number may already belong to another handle's pipe whose data would be lost", not bad, {"events": bad[:4]}, nontrivial=True)
     ctx.floor("C02.S2", 4)
     ctx.floor("C02.S3", 5)
     # close: each stream value closes and invalidates its own field
@@ -160,6 +163,9 @@ def api_rules(ctx, prog):
             s2.mon["stream"] = sname.lower()
             entries.append(s2)
     res = I.run(F, entries)
+    bad = sorted({(e[0], site_of(e[1], e[2])) for e in res.events if e[0] in ("double-close", "close-raw", "close-foreign", "close-ambiguous")})
+    ctx.ob("C02.S2d", "reproc_close", "the parent's end is released exactly once - also when close() itself reports an error, after which "
+           "the number may already belong to another handle's pipe whose data would be lost", not bad, {"events": bad[:4]}, nontrivial=True)
     for st, rv in res.exits:
         sname = st.mon["stream"]
         others = [x for x in ("in", "out", "err") if x != sname]
@@ -347,3 +353,6 @@ def check(ctx):
     c11.closeall_rules(ctx, prog)
     # the convenience reader delivers every chunk it reads and reports each stream's end (C16.G1-G3)
     c16.drain_rules(ctx, prog)
+    # what is read is handed on from storage private to the call: no buffer shared between handles / threads (C20.H1)
+    from . import c20
+    c20.globals_rule(ctx, prog)
